@@ -353,7 +353,8 @@ bloc::Value * CSVPlugin::executeMethod(
     {
       // copy last incomplete value
       size_t last = c.size() - 1;
-      data.push_back(*(c.at(last).literal()));
+      bloc::Value& lv = c.at(last);
+      data.push_back(lv.isNull() ? std::string() : *lv.literal());
       // pop it
       c.erase(c.begin() + last);
     }
